@@ -17,6 +17,7 @@ import numpy as np
 
 from verif import grammar as G
 from verif.bounded import BoundedCheck, BoundedResult, Violation
+from contracts.c07_fortran import CONTRACTS as WRAPPER_CONTRACTS
 from verif.spec import PropertySpec
 
 SAFE_NUMS = ['2.0', '0.5', '1.0', '3.0', '0.25', '4.0']
@@ -224,16 +225,19 @@ FortranDifferential.run = _run_and_clean
 
 PROPERTY = PropertySpec(
     id='C07',
-    contracts=[],
+    contracts=list(WRAPPER_CONTRACTS),
     bounded=[FortranDifferential()],
-    level='exploration',
-    explanation='bounded differential: generated Fortran compiled with gfortran and driven through the FortranEngine wrapper via ctypes',
-    level_text='bounded differential run-time contract: per program the Fortran numbering / lag-lead constants are compared with the Python class, the '
+    level='other',
+    explanation='FortranEngine.solve_t and _evaluate are executed symbolically from source against an assumed contract of the compiled ENGINE: the period is passed '
+                'one-based, check-variable rows are the one-based positions in the variable order, limits / tolerance / offset / option code unchanged; returned '
+                'codes map to the outcomes of the Python solver (status, iterations, result, exception class); values written back only on success paths. '
+                'The ENGINE contract and the language-level equivalence are decided by the bounded differential (gfortran + ctypes, f2py calling convention).',
+    level_text='proof obligations for the wrapper (all options and returned codes) + bounded differential run-time contract: per program the Fortran numbering / lag-lead constants are compared with the Python class, the '
                'source is compiled (gfortran) and evaluate / solve_t / solve driven through the real FortranEngine wrapper are compared with the '
                'pure-Python class on random finite data (values to 1e-12 relative, statuses, iteration counts, return values, exception classes); '
                'that Fortran reads the emitted expression text as Python does cannot be expressed as a contract on a function of /repo',
     level_note='trusted: gfortran, ctypes harness with f2py calling convention; bound: 25 programs (quick) of the common subset with literals exactly '
                'representable in single precision; the Fortran template has no front end in pyvc (DESIGN 4.3)',
-    technique='contract-based verification: bounded differential run-time contract (gfortran + ctypes) standing in for the undecidable language-equivalence clause',
+    technique='contract-based deductive verification of the FortranEngine wrappers (pyvc + z3, assumed ENGINE contract); bounded differential (gfortran + ctypes) for the rest',
     design_ref='DESIGN.md section 10 / C07',
 )
